@@ -330,6 +330,7 @@ func runC08(r *Run) {
 	if nQ < 4 {
 		fail("C08.volatile: only %d queue producers/consumers found (expected 6)", nQ)
 	}
+	checkPerBlockRebuild(r)
 	r.Floor("C08.", 20)
 }
 
@@ -432,4 +433,71 @@ func loopHeaderOf(b *ssa.BasicBlock) *ssa.BasicBlock {
 		}
 	}
 	return nil
+}
+
+// checkPerBlockRebuild: an in-memory table of a one-per-node object that BeginBlock re-creates is re-created on every
+// path of the function that refills it (a conditional reset keeps the previous block's content on some paths, which a
+// restarted node does not have).
+func checkPerBlockRebuild(r *Run) {
+	p := r.P
+	roots := p.Roots()
+	reach, _ := p.Reach(roots["begin"])
+	if re, _ := p.Reach(roots["end"]); re != nil {
+		for f := range re {
+			reach[f] = true
+		}
+	}
+	singles := singletonTypes(p)
+	n := 0
+	for _, fn := range sortedFns(reach) {
+		if fn.Blocks == nil || !inRepo(fn) || fn.Signature.Recv() == nil || len(fn.Params) == 0 {
+			continue
+		}
+		rt := derefT(fn.Signature.Recv().Type())
+		if !singles[tname(rt)] && !singles[strings.TrimPrefix(tname(rt), "*")] {
+			continue
+		}
+		fn := fn
+		recv := fn.Params[0]
+		allInstrs(fn, func(ins ssa.Instruction) {
+			st, ok := ins.(*ssa.Store)
+			if !ok {
+				return
+			}
+			pa := pathOf(st.Addr)
+			if pa.Root != ssa.Value(recv) || len(pa.Fields) != 1 {
+				return
+			}
+			switch st.Val.(type) {
+			case *ssa.MakeMap, *ssa.MakeSlice:
+			default:
+				return
+			}
+			// a nil-guarded lazy initialisation is not a reset
+			lazy := condEdges(fn, func(cond ssa.Value, _ *ssa.If) int {
+				return nilCond(cond, func(y ssa.Value) bool {
+					pb := pathOf(y)
+					return pb.Root == pa.Root && pb.FieldString() == pa.FieldString()
+				})
+			})
+			if len(lazy) > 0 && !reachWithout(fn, lazy)[st.Block()] {
+				return
+			}
+			n++
+			first := fn.Blocks[0].Instrs[0]
+			bad := false
+			if first != ssa.Instruction(st) {
+				for i2 := range reachFromInstr(first, nil, func(i ssa.Instruction) bool { return i == ssa.Instruction(st) }) {
+					if _, isRet := i2.(*ssa.Return); isRet {
+						bad = true
+					}
+				}
+			}
+			r.Check(!bad, "C08.rebuild", fname(fn), pa.FieldString()+" is re-created on every path", "no return before the reset",
+				"the per-block table "+pa.FieldString()+" is reset on some paths of "+fname(fn)+" only: on the other paths a running node keeps the previous block's content, a restarted node starts empty, and their results differ from that block on", p.ipos(st))
+		})
+	}
+	if n < 2 {
+		fail("C08.rebuild: only %d per-block resets found", n)
+	}
 }
